@@ -200,6 +200,9 @@ impl Check for C14 {
         events.sort_by_key(|e| e.t());
         serde_json::to_value(Scenario { net_seed: rng.gen(), latency_ms: (1, *[2u64, 20, 80].get(rng.gen_range(0..3)).unwrap()), events }).unwrap()
     }
+    fn isolate(&self, _scenario: &Value) -> bool {
+        true
+    }
     fn execute(&self, scenario: &Value) -> Outcome {
         let sc: Scenario = match serde_json::from_value(scenario.clone()) {
             Ok(s) => s,
